@@ -262,38 +262,62 @@ def contract(rng, deep):
                             break
             except Exception as ex:
                 fail(path, 'order', 'shuffled points raised %s: %s' % (type(ex).__name__, str(ex)[:100]), case)
-            # csv round trip
-            try:
-                fd, fn = tempfile.mkstemp(suffix='.csv', dir=os.path.join(lean_io.ROOT, 'evidence'))
-                os.close(fd)
+            # csv round trip (also at times far from the catalogue's: a field whose dtype or precision depends on
+            # the time — seeded C05-6 switched to extended precision at early times — does not survive the round trip)
+            def csv_check(sol, n, case):
                 try:
-                    sol.dump(fn)
-                    with open(fn, newline='') as f:
-                        rows = list(csv.reader(f))
-                finally:
-                    os.remove(fn)
-                count('csv')
-                if rows[0] != names or len(rows) != n + 1:
-                    fail(path, 'csv-roundtrip', 'header or row count differs', case)
-                else:
-                    for j, nm in enumerate(names):
-                        back = []
-                        for r in rows[1:]:
-                            try:
-                                kind = sol.dtype[nm].kind
-                                back.append(r[j] if kind in 'USO' else (complex(r[j]) if kind == 'c' else float(r[j])))
-                            except ValueError:
-                                back.append(r[j])
-                        orig = list(sol[nm])
-                        if sol.dtype[nm].kind == 'O':
-                            orig = [str(x) if x is not None else x for x in orig]
-                        for x, y in zip(orig, back):
-                            same = (x == y) or (isinstance(y, float) and isinstance(x, (float, np.floating)) and math.isnan(x) and math.isnan(y))
-                            if not same:
-                                fail(path, 'csv-roundtrip', 'field %s: wrote %r, read back %r' % (nm, x, y), case)
-                                break
-            except Exception as ex:
-                fail(path, 'csv-roundtrip', 'dump/read raised %s: %s' % (type(ex).__name__, str(ex)[:100]), case)
+                    fd, fn = tempfile.mkstemp(suffix='.csv', dir=os.path.join(lean_io.ROOT, 'evidence'))
+                    os.close(fd)
+                    try:
+                        sol.dump(fn)
+                        with open(fn, newline='') as f:
+                            rows = list(csv.reader(f))
+                    finally:
+                        os.remove(fn)
+                    count('csv')
+                    if rows[0] != names or len(rows) != n + 1:
+                        fail(path, 'csv-roundtrip', 'header or row count differs', case)
+                    else:
+                        for j, nm in enumerate(names):
+                            back = []
+                            for r in rows[1:]:
+                                try:
+                                    kind = sol.dtype[nm].kind
+                                    back.append(r[j] if kind in 'USO' else (complex(r[j]) if kind == 'c' else float(r[j])))
+                                except ValueError:
+                                    back.append(r[j])
+                            orig = list(sol[nm])
+                            if sol.dtype[nm].kind == 'O':
+                                orig = [str(x) if x is not None else x for x in orig]
+                            for x, y in zip(orig, back):
+                                same = (x == y) or (isinstance(y, float) and isinstance(x, (float, np.floating)) and math.isnan(x) and math.isnan(y)) \
+                                or (x is None and y == '')      # "no value" is written as an empty cell
+                                if not same:
+                                    fail(path, 'csv-roundtrip', 'field %s: wrote %r, read back %r' % (nm, x, y), case)
+                                    break
+                except Exception as ex:
+                    fail(path, 'csv-roundtrip', 'dump/read raised %s: %s' % (type(ex).__name__, str(ex)[:100]), case)
+            csv_check(sol, n, case)
+            if not e.slow:
+                for fac in (1e-3, 40.0):
+                    t2 = t * fac
+                    try:
+                        with np.errstate(all='ignore'):
+                            sol_t = s(pts, t2)
+                    except Exception:
+                        continue          # outside the solver's time domain: C20's business
+                    count('other-time')
+                    case2 = dict(case, t=t2)
+                    if len(sol_t) != n or list(sol_t.dtype.names) != names:
+                        fail(path, 'record-count', 'records or names change with the time of the request', case2)
+                        continue
+                    # only the precision of real fields is this check's business (a field that turns complex
+                    # outside its time domain is C20's; string widths follow the values)
+                    prec = lambda so: [so.dtype[nm].str if so.dtype[nm].kind == 'f' else so.dtype[nm].kind for nm in names]
+                    if [x for x, y in zip(prec(sol), prec(sol_t)) if x != y and x.startswith('<f') and y.startswith('<f')]:
+                        fail(path, 'dtype', 'field dtypes %r at t=%r, %r at t=%r' % ([sol.dtype[nm].str for nm in names], t,
+                                                                                  [sol_t.dtype[nm].str for nm in names], t2), case2)
+                    csv_check(sol_t, n, case2)
         # ---- the hand model of ExactSolver.__init__ vs the real constructors ---------------
         outs = lean_io.run_lines(lines)
         for out, (path, given, real, message, decl, received) in zip(outs, expect):
